@@ -49,7 +49,7 @@ const (
 	nFat       = 16
 	nSpam      = 110 // > RejectRecCnt: the ring of rejected transactions wraps
 	nChain     = 101 // descendants of T2: more than the 100 a replacement may evict
-	nDenseFund = 200 // funding outputs of the dense-run family
+	nDenseFund = 204 // funding outputs of the dense-run family
 	fatScript  = 95000
 	lowLimit   = 500000 // bytes: the lowered size limit
 	expireDays = 1
@@ -180,7 +180,7 @@ func (u *universe) add(name string, ins []refchain.Outpoint, outs []reftx.Out) *
 	return x
 }
 
-func buildUniverse(M [32]byte) *universe {
+func buildUniverse(M, N [32]byte) *universe {
 	u := &universe{by: map[string]*utx{}, byID: map[[32]byte]*utx{}}
 	U := func(i int) refchain.Outpoint { return op(M, uint32(i-1)) }
 	ops := func(o ...refchain.Outpoint) []refchain.Outpoint { return o }
@@ -234,6 +234,23 @@ func buildUniverse(M [32]byte) *universe {
 	u.add("CS1", ops(op(tm.id, 0), op(sr.id, 1)), outs(o1(1e8+3e8-100-50000)))
 	u.add("CS2", ops(op(tm.id, 1), op(sq.id, 1)), outs(o1(1e8+1e8-200-50000)))
 	u.add("CS3", ops(op(tm.id, 2), op(sp.id, 1)), outs(o1(1e8+5e7-300-50000)))
+	// multi-edges: a child spending TWO / THREE outputs of one multi-output parent, and the triangle
+	// P -> C -> G plus P -> G; each once with the child paying a HIGHER rate than the parent (MP, TP
+	// families) and once a LOWER one (MQ, TQ families). Funded from the last outputs of N.
+	NF := func(i int) refchain.Outpoint { return op(N, uint32(2+nDenseFund-i)) }                           // NF(1) = last 1e7 output of N
+	mp := u.add("MP", ops(NF(1)), outs(o1(15e5), o1(15e5), o1(15e5), o1(15e5), o1(15e5), o1(25e5-1000)))   // fee 1000 (~9 sat/B)
+	u.add("MC2", ops(op(mp.id, 0), op(mp.id, 1)), outs(o1(30e5-50000)))                                    // two outputs of MP, ~490 sat/B
+	u.add("MC3", ops(op(mp.id, 2), op(mp.id, 3), op(mp.id, 4)), outs(o1(45e5-60000)))                      // three outputs of MP
+	u.add("MC2x", ops(op(mp.id, 0)), outs(o1(15e5-90000)))                                                 // replaces MC2
+	mq := u.add("MQ", ops(NF(2)), outs(o1(15e5), o1(15e5), o1(15e5), o1(15e5), o1(15e5), o1(25e5-100000))) // fee 100000 (~900 sat/B)
+	u.add("MD2", ops(op(mq.id, 0), op(mq.id, 1)), outs(o1(30e5-1000)))                                     // ~10 sat/B
+	u.add("MD3", ops(op(mq.id, 2), op(mq.id, 3), op(mq.id, 4)), outs(o1(45e5-1500)))
+	tp := u.add("TP", ops(NF(3)), outs(o1(3e6), o1(3e6), o1(4e6-1000))) // rates TP < TG < TC
+	tc := u.add("TC", ops(op(tp.id, 0)), outs(o1(3e6-60000)))
+	u.add("TG", ops(op(tc.id, 0), op(tp.id, 1)), outs(o1(6e6-60000-30000)))
+	tq := u.add("TQ", ops(NF(4)), outs(o1(3e6), o1(3e6), o1(4e6-100000))) // rates TQ > TD > TH
+	td := u.add("TD", ops(op(tq.id, 0)), outs(o1(3e6-5000)))
+	u.add("TH", ops(op(td.id, 0), op(tq.id, 1)), outs(o1(6e6-5000-1000)))
 	u.add("CLo", ops(op(u.by["T1lo"].id, 0)), outs(o1(5e8-5000-10000))) // child of the low-fee double spend
 	u.add("OV", ops(U(4)), outs(o1(5e8+1)))                             // outputs exceed inputs
 	wtx := u.add("W", ops(op(M, uint32(5+nFat))), outs(o1(1e8-30000)))  // segwit spend: size != stripped size
@@ -334,7 +351,7 @@ func (w *world) buildDense(anchors, shape string, n int) {
 	if w.dense != nil {
 		hfail("one dense run per history")
 	}
-	if n < 2 || n > nDenseFund {
+	if n < 2 || n > nDenseFund-4 { // the last four outputs of N fund the multi-edge families
 		hfail("dense run length %d", n)
 	}
 	w.dense = &denseRun{anchors, shape, n}
@@ -1414,9 +1431,9 @@ func runJob(job *Job) (res *Result) {
 	var M [32]byte
 	mb, _ := hex.DecodeString(pf.M)
 	copy(M[:], mb)
-	w.u = buildUniverse(M)
 	nb, _ := hex.DecodeString(pf.N)
 	copy(w.fundN[:], nb)
+	w.u = buildUniverse(M, w.fundN)
 	ev.CopyDir(job.Prefix+"/chain", w.dir+"/d")
 
 	// ---- environment the client's init code would set up (common.InitConfig is not called)
@@ -1661,6 +1678,7 @@ var scenarios = []scenario{
 	{"rbf100", []string{"net:T2", "chain", "net:T2hi", "tru:T2hi", "list", "mine:best", "reorg:", "reload"}, false, true, false},
 	{"rbf-own-parent", []string{"net:T1", "net:C1", "net:R", "net:R2", "net:R3", "tru:R2", "mine:best", "list", "reorg:"}, false, true, false},
 	{"levels", []string{"net:LG", "net:LP2", "net:LP1", "net:LC", "list", "mine:best", "mine:LG", "reorg:"}, false, true, false},
+	{"multi-edge", []string{"net:MP", "net:MC2", "net:MC3", "net:MQ", "net:MD2", "net:TP", "net:TC", "net:TG", "net:T2", "list", "mine:T2", "reorg:", "reload"}, false, false, true},
 	{"pkg-rbf", []string{"net:T1", "net:C1", "net:G", "net:G2", "net:C1x", "net:Gx", "net:G2x", "list", "adv13h", "tick"}, false, false, true},
 	{"badfile", []string{"net:T1", "net:C1", "net:T1hi", "net:O", "reload-cut:tx1", "reload-cut:tail5", "reload-cut:flip-end", "reload", "list"}, false, true, true},
 	{"side", []string{"net:SR", "net:SQ", "net:TM", "net:CM2", "net:CS2", "list", "adv13h", "mine:T2"}, false, true, false},
@@ -1674,6 +1692,8 @@ var scenarios = []scenario{
 //	       interleaving-rate transactions into one gap at the head, in the middle and at the tail
 //	       of the list (anchors none/high/low/both), then children with one parent inside the
 //	       run and one outside; with and without a listing between run and children
+//	multi  a child joined to one parent by two / three edges, and the triangle P->C->G + P->G, in both
+//	       rate orders, with listings right after every event that dirties the sorted list
 //	pkg    chains of 3-4 with up-to-date fee packages, then replacement / expiry of the last or a
 //	       middle member (a non-root package member leaves the pool outside block processing)
 //	badfile the pool file is cut at every record-boundary class or has one byte changed where the
@@ -1696,6 +1716,34 @@ func scripts(thorough bool) (l []script) {
 					l = append(l, script{"dense", []string{d, "list", "kids", "list", "mine:T2", "reload"}})
 				}
 			}
+		}
+	}
+	// multi: children connected to ONE parent by two / three edges and the triangle P->C->G + P->G, child
+	// rate above and below the parent's, parents first and children first, with a listing right after
+	// every event that makes the sorted list dirty (pooled transaction mined, block undone, reload),
+	// then an incremental deletion (replacement) and another listing
+	for _, fam := range [][]string{{"MP", "MC2"}, {"MP", "MC3"}, {"MP", "MC2", "MC3"}, {"MQ", "MD2"}, {"MQ", "MD3"},
+		{"TP", "TC", "TG"}, {"TQ", "TD", "TH"}, {"MP", "MC2", "MC3", "MQ", "MD2", "MD3", "TP", "TC", "TG", "TQ", "TD", "TH"}} {
+		var sub, rev []string
+		for _, c := range fam {
+			sub = append(sub, "net:"+c)
+			rev = append([]string{"net:" + c}, rev...)
+		}
+		cat := func(a []string, b ...string) []string { return append(append([]string{}, a...), b...) }
+		l = append(l,
+			script{"multi", sub},
+			script{"multi", cat(sub, "list")},
+			script{"multi", cat(sub, "reload")},
+			script{"multi", cat(sub, "reload", "list", "reload")},
+			script{"multi", cat(append([]string{"net:T2"}, sub...), "mine:T2")},
+			script{"multi", cat(append([]string{"net:T2"}, sub...), "list", "mine:T2", "list")},
+			script{"multi", cat(append([]string{"net:T2"}, sub...), "mine:T2", "reorg:")},
+			script{"multi", cat(append([]string{"net:T2"}, sub...), "mine:T2", "reorg:", "list", "mine:best")},
+			script{"multi", cat(rev, "reload")},
+			script{"multi", cat(rev, "list")},
+		)
+		if fam[0] == "MP" && fam[1] == "MC2" {
+			l = append(l, script{"multi", cat(sub, "reload", "list", "net:MC2x", "list")}, script{"multi", cat(sub, "list", "net:MC2x", "reload")})
 		}
 	}
 	// pkg: chains of 3 and 4 with up-to-date fee packages (a listing within the last 10
@@ -2128,6 +2176,7 @@ func main() {
 		"samples":                         x.samples.L,
 		"rule": "BFS over event histories per scenario (one event menu each; per_scenario lists them; final-rbf = NotFullRBF configuration), every history in a fresh worker process on a copy of a 105-block chain wired to txpool as client/main.go does; " +
 			"plus scripted long histories (depth instead of breadth): dense = runs of 64 and 200 equal-rate / ascending / descending / converging-rate transactions into one gap of the sorted list with none/high/low/both anchors, then two-parent children (one parent inside the run, one outside), with and without a listing in between; " +
+			"multi = child spending two / three outputs of one parent and the triangle P->C->G + P->G, child rate above and below the parent's, listing right after every sort-dirtying event (pooled tx mined, block undone, reload) and after a later replacement; " +
 			"pkg = chains of 3-4 with up-to-date fee packages, then replacement / expiry of the last or a middle member; badfile = pool file cut at every record-boundary class or one byte changed (block hash, record counts, end marker) between MempoolSave and MempoolLoad, which must return true with the saved pool or false with an empty pool, followed by double spends / children / replacements; " +
 			"side = CPFP child whose second parent sits at depth 1-3 of a low-rate unconfirmed chain, parents first and children first, listing before and after every package-rebuild trigger (connected block, undone block, 10-minute suspend, reload); " +
 			"scripted histories run first and are not subject to the wall-clock budget; invariant oracle after every event; both listings, GetMempoolFees (listed = pooled, no output spent twice, Fee/Weight = sums) and block-from-listing acceptance at the end of every history and at list events; state key = (confirmed txs, tip block txs, pooled txs with Local/Final/MemInputs/age bucket, rejected records with reason, pending, dirty flags, sort order, fee packages as root+member set, clock buckets, dynamic minimal fee, size limit)",
